@@ -57,8 +57,19 @@ func (s *bungeeServer) BroadcastPluginMessage(identifier message.ChannelIdentifi
 	if s == nil {
 		return
 	}
-	sinks := PlayersToSlice[message.ChannelMessageSink](s.s.Players())
-	BroadcastPluginMessage(sinks, identifier, data)
+	// The payload is for the backend server, not for the players' clients: deliver it once,
+	// over the server connection of any one player that is connected to this server.
+	s.s.Players().Range(func(p Player) bool {
+		cp, ok := p.(*connectedPlayer)
+		if !ok {
+			return true
+		}
+		conn := cp.connectedServer()
+		if conn == nil || !RegisteredServerEqual(conn.Server(), s.s) {
+			return true
+		}
+		return conn.SendPluginMessage(identifier, data) != nil // stop after the first delivery
+	})
 }
 func (s *bungeeServer) Connect(player bungeecord.Player) {
 	if s == nil {
